@@ -577,14 +577,22 @@ class Interp:
                     tf.margin_top = [45720, 0, 1, 2, 3, 4, 5, 6][v]
                 elif kind == 23:
                     # out-of-domain text formatting
-                    if v % 4 == 0:
+                    if v == 0:
                         p.level = 9
-                    elif v % 4 == 1:
+                    elif v == 1:
                         p.font.size = Pt(4001)
-                    elif v % 4 == 2:
+                    elif v == 2:
                         p.level = -1
-                    else:
+                    elif v == 3:
                         p.font.size = 50
+                    elif v == 4:
+                        p.line_spacing = 200.0
+                    elif v == 5:
+                        p.space_before = Pt(1600)
+                    elif v == 6:
+                        p.space_after = -5
+                    else:
+                        p.line_spacing = Pt(2000)
                 else:
                     if p.runs:
                         r = p.runs[0]
